@@ -4,6 +4,7 @@ API-level part (SPEC+O): Clipper64::Execute with open subjects is compared with 
 extracted from coq/model/OpenClipSpec.v on generated general-position inputs, all 4 clip types x 4 fill rules,
 paths and polytree execution, default and CLIPPER2_HI_PRECISION builds, 7 coordinate regimes.
 Failure modes (classifier keys):
+  crash.open-boolop             the operation crashed, hung or threw
   execute-returned-false        Execute returned false
   open.vertex-off-subject       a solution vertex is farther than 1.5 from every open subject segment
   open.segment-off-subject      a solution segment has no single subject segment within 1.5 of both its end points
@@ -45,7 +46,7 @@ META = dict(
 CT = {1: 'Intersection', 2: 'Union', 3: 'Difference', 4: 'Xor'}
 FR = {0: 'EvenOdd', 1: 'NonZero', 2: 'Positive', 3: 'Negative'}
 ALL_COMBOS = [(ct, fr) for ct in CT for fr in FR]
-PRIORITY = ['execute-returned-false', 'crash', 'open.horz-spike', 'open.cut-inexact', 'open.vertex-off-subject', 'open.segment-off-subject', 'open.piece-extra',
+PRIORITY = ['crash.open-boolop', 'execute-returned-false', 'open.horz-spike', 'open.cut-inexact', 'open.vertex-off-subject', 'open.segment-off-subject', 'open.piece-extra',
             'open.piece-missing', 'open.length', 'open.tree-vs-paths', 'open.closed-solution-changed']
 
 
@@ -145,14 +146,7 @@ def evaluate(ctx, exes, oracle, cases, combos_of=None, count=True):
                              bool_line(ct, fr, pc, rs, 1, c['S'], c['O'], c['C']), bool_line(ct, fr, pc, rs, 1, c['S'], [], c['C'])]
     outs, fails_out = {}, []
     for b in exes:
-        o, fails = vf.par_lines(exes[b], lines[b])
-        if fails:
-            sh, rc, err, _ = fails[0]
-            l, rc1, err1 = vf.isolate_failure(exes[b], sh)
-            fails_out.append(dict(key='crash', ci=None, what='boolean operation with open subjects crashed or hung (rc=%s, build %s): %s'
-                                  % (rc1 if l else rc, b, (err1 or err)[-300:]), replay=dict(build=b, line=l or sh[:8])))
-            return fails_out, {}
-        outs[b] = o
+        outs[b] = run_harness(exes[b], lines[b])
     idx = {b: 0 for b in exes}
     per_case = {ci: [] for ci in range(len(cases))}
     for (ci, b, ct, fr, pc, rs) in jobs:
@@ -193,8 +187,9 @@ def evaluate(ctx, exes, oracle, cases, combos_of=None, count=True):
             tag = '%s/%s pc=%d rs=%d build=%s regime=%s' % (CT[r['ct']], FR[r['fr']], r['pc'], r['rs'], r['b'], c.get('regime', '?'))
             found = []
             if any(r[k] is None for k in ('A', 'B', 'T', 'TB')):
-                bad = [x for k, x in zip(('A', 'B', 'T', 'TB'), r['raw']) if r[k] is None]
-                found.append(('crash', '%s: harness output not parsable: %s' % (tag, bad[0][:200]), {}))
+                bad = [(k, x) for k, x in zip(('A', 'B', 'T', 'TB'), r['raw']) if r[k] is None]
+                found.append(('crash.open-boolop', '%s: boolean operation crashed, hung or threw (%s run: paths/tree, with/without open subjects): %s'
+                              % (tag, bad[0][0], bad[0][1][:200]), dict(run=bad[0][0])))
                 if r['A'] is not None:
                     next(reports)
                 fails_out += [dict(key=k, ci=ci, what=w, replay=dict(base, **x)) for k, w, x in found]
@@ -269,6 +264,29 @@ def evaluate(ctx, exes, oracle, cases, combos_of=None, count=True):
                 else:
                     f['key'] += BEYOND
     return fails_out, stats
+
+
+def run_harness(exe, lines, shard=256):
+    """line-in/line-out over all cores; a shard in which the harness crashed or hung is re-run line by line so that
+    only the crashing lines are lost (their output is 'CRASH rc=...')"""
+    import concurrent.futures as cf
+    shards = [lines[i:i + shard] for i in range(0, len(lines), shard)]
+
+    def work(sh):
+        p = vf.run_lines(exe, sh, timeout=300)
+        o = p.stdout.split('\n')
+        if o and o[-1] == '':
+            o.pop()
+        if p.returncode == 0 and len(o) == len(sh):
+            return o
+        res = []
+        for l in sh:
+            q = vf.run_lines(exe, [l], timeout=20)
+            t = q.stdout.strip()
+            res.append(t if q.returncode == 0 and t else 'CRASH rc=%s %s' % (q.returncode, q.stderr.strip()[-160:].replace('\n', ' ')))
+        return res
+    with cf.ThreadPoolExecutor(max_workers=vf.NPROC) as ex:
+        return [l for o in ex.map(work, shards) for l in o]
 
 
 def region_differs(ctx, oracle, A, B, k):
@@ -388,7 +406,7 @@ def run(ctx):
         seen.setdefault(f['key'], []).append(f)
     for key, fs in seen.items():
         f = fs[0]
-        if f.get('ci') is not None and key not in ('crash',) and not any(k['key'] == key for k in ctx.known):
+        if f.get('ci') is not None and not any(k['key'] == key for k in ctx.known):
             try:
                 f = shrink(ctx, exes, oracle, f)
             except vf.Infra:
